@@ -43,6 +43,10 @@ mut("symeig_gram_not_representable", 1, lambda e: (e.__setitem__("svd", "symeig_
 mut("single_precision_error_on_double_input", 2, lambda e: e["out"].__setitem__("rel_q", 200000))      # 2e-7: float32-level
 e32 = copy.deepcopy(good[2]); e32["id"] = "good_float32_level_error_on_float32_input"; e32["dtype"] = "float32"; e32["out"]["rel_q"] = 200000
 good.append(e32); evs.append(e32)
+mut("unknown_mode_spelling", 3, lambda e: e.__setitem__("mspec", "uint8"))
+mut("documented_form_must_not_be_refused", 3, lambda e: e["out"].update(raised=True, exc="ValueError", about_rank=False))
+en = copy.deepcopy(good[3]); en["id"] = "good_negative_mode_refused"; en["mspec"] = "neg"; en["out"].update(raised=True, exc="ValueError", about_rank=False)
+good.append(en); evs.append(en)
 rot = {"op": "rotated", "shape": [3, 6, 6, 4], "idx": [[0, 2, 5, 1], [2, 4, 0, 3]], "vals": [5, -2], "exps": [0, -30], "tseed": 11}
 g1 = c09.execute(dict(case("good_graded_exact", "tt", [1, 2, 2, 2, 1], t=rot), rspec="list", frac=0, via="function", pow2=0, dtype="float64"))
 g2 = c09.execute(dict(case("good_graded_truncated", "tt", [1, 1, 2, 2, 1], t=rot), rspec="list", frac=0, via="function", pow2=0, dtype="float64"))
